@@ -9,7 +9,7 @@
 use rosu_map::{
     section::{
         general::GameMode,
-        hit_objects::{Curve, CurveBuffers, PathControlPoint, SplineType},
+        hit_objects::{Curve, CurveBuffers, PathControlPoint, SliderPath, SplineType},
     },
     util::Pos,
 };
@@ -104,6 +104,11 @@ pub fn run(ctx: &mut Ctx) {
         let mut r = ctx.rng_for(0, i);
         let pts = paths::random_points(&mut r);
         let mode = MODES[r.below(4)];
+        if i % 2 == 1 {
+            // the shared buffers still hold an unrelated borrowed curve
+            paths::dirty(&mut ctx.rng_for(9, i), &mut bufs);
+            ctx.count("computed_after_a_borrowed_curve");
+        }
         all_lengths(ctx, 1 << 56 | i, mode, &pts, &mut bufs, Some(&mut r));
         if ctx.out_of_time() {
             break;
@@ -134,6 +139,10 @@ fn all_lengths(ctx: &mut Ctx, index: u64, mode: GameMode, pts: &[PathControlPoin
         ("huge", 131_072.0),
         ("small_absolute", fr * 10.0),
     ];
+    // the same requests made of one long-lived slider path whose requested length is edited in place:
+    // every edit has to be honoured (the curve it holds from the previous request must not survive)
+    let mut edited = SliderPath::new(mode, pts.to_vec(), None);
+    let _ = edited.curve().dist();
     for (class, l) in classes {
         if !(l > 0.0) || !l.is_finite() {
             continue;
@@ -144,6 +153,17 @@ fn all_lengths(ctx: &mut Ctx, index: u64, mode: GameMode, pts: &[PathControlPoin
             let adj = Curve::new(mode, pts, Some(l), bufs);
             adjusted_checks(ctx, index, &nat, &adj, l, &w2);
             c19::relations(ctx, index, &adj, &w2, r.as_deref_mut(), false);
+            *edited.expected_dist_mut() = Some(l);
+            let held = edited.curve();
+            ctx.count("lengths_requested_by_editing_a_path");
+            if held.dist().to_bits() != adj.dist().to_bits() || held.path() != adj.path() {
+                ctx.violation(
+                    "edited_length_not_honoured",
+                    format!("slider path whose requested length was set to {l:?} through expected_dist_mut(): distance {:?} ({} path points), a fresh curve for that length has {:?} ({} points)", held.dist(), held.path().len(), adj.dist(), adj.path().len()),
+                    index,
+                    w2.as_bytes(),
+                );
+            }
         });
         ctx.eval(digest(mode, pts, Some(l)), pts.len() >= 2);
     }
